@@ -344,12 +344,12 @@ Fixpoint sections_ok (body : list item) (sec : nat) (pending : list (nat * schoi
 Fixpoint names_nodup (l : list string) : bool :=
   match l with [] => true | x :: r => negb (str_in x r) && names_nodup r end.
 
-(* the header `:: name(params)`: a valid passage name; parameters: identifiers that are not keywords, all different,
-   required ones before optional ones; a default is trimmed and has no comma and no bracket of any kind *)
+(* the header `:: name(params)`: a valid passage name; parameters: identifiers that are not keywords and not the
+   reserved positional markers arg_<digits> (fix F07d), all different, required ones before optional ones; a default is trimmed and has no comma and no bracket of any kind *)
 Definition default_ok (d : string) : bool :=
   trimmed d && all_chars (fun c => negb (ch c "," || is_opener c || is_closer c)) d.
 Definition param_ok (p : param) : bool :=
-  is_identifier (pname p) && negb (is_keyword (pname p)) &&
+  is_identifier (pname p) && negb (is_keyword (pname p)) && negb (is_positional_marker (pname p)) &&
   match pdefault p with None => true | Some d => default_ok d end.
 Fixpoint required_first (ps : list param) (seen : bool) : bool :=
   match ps with
